@@ -568,7 +568,7 @@ result_type parse_url_impl(std::string_view user_input,
             }
           }
           url.update_unencoded_base_hash(*fragment);
-          return url;
+          goto check_normalized_size;
         }
         // Otherwise, if base's scheme is not "file", set state to relative
         // state and decrease pointer by 1.
@@ -703,7 +703,7 @@ result_type parse_url_impl(std::string_view user_input,
                 url.update_unencoded_base_hash(*fragment);
               }
             }
-            return url;
+            goto check_normalized_size;
           }
           input_position = end_of_authority + 1;
         } while (true);
@@ -916,7 +916,7 @@ result_type parse_url_impl(std::string_view user_input,
             url.update_unencoded_base_hash(*fragment);
           }
         }
-        return url;
+        goto check_normalized_size;
       }
       case state::HOST: {
         ada_log("HOST ", helpers::substring(url_data, input_position));
@@ -1046,7 +1046,7 @@ result_type parse_url_impl(std::string_view user_input,
                 url.update_unencoded_base_hash(*fragment);
               }
             }
-            return url;
+            goto check_normalized_size;
           }
           // If c is neither U+002F (/) nor U+005C (\), then decrease pointer
           // by 1. We know that (input_position == input_size) is impossible
@@ -1301,9 +1301,11 @@ result_type parse_url_impl(std::string_view user_input,
       url.update_unencoded_base_hash(*fragment);
     }
   }
+check_normalized_size:
   // Check the resulting (normalized) URL size against the maximum input length.
   // Normalization (percent-encoding, IDNA, etc.) can expand the URL beyond the
-  // original input size.
+  // original input size. States that finish the parse early jump here so that
+  // no successful exit skips this check.
   if constexpr (store_values) {
     if (url.is_valid) {
       if constexpr (result_type_is_ada_url_aggregator) {
